@@ -121,7 +121,7 @@ class C04(Property):
 
     def _plan(self, ctx: Ctx):
         if ctx.tier == "thorough":
-            n, k = 300, 6
+            n, k = 200, 6
         else:
             n, k = 50, 3
         if ctx.mode == "search":
